@@ -41,8 +41,8 @@ REGISTRY = dict(
           "isometries and (de)serialisation "
           "(Pulser's computation: metamorphic checks through real pulser Registers/Sequences), emu-mps (validated end to end)."),
     note=("Trusted: Lean kernel + propext/Classical.choice/Quot.sound; Mathlib; Model.SvOps tied to the code by C06's "
-          "correspondence; end-to-end equalities are differential tests with stated tolerances (1e-5 emu-sv, 2e-3 emu-mps at "
-          "precision 1e-10; clean-tree spread 1.6e-7 / 4.4e-5), labelled as such."),
+          "correspondence; end-to-end equalities are differential tests with stated tolerances (1e-8 emu-sv, 2e-3 emu-mps at "
+          "precision 1e-10; clean-tree spread 2e-15 / 5.6e-5), labelled as such."),
     technique="Lean 4 proof (conjugation by a diagonal unitary, induction on the qubit tree) + metamorphic oracle on both back-ends",
     design_ref="DESIGN.md §5 C29",
 )
@@ -54,9 +54,11 @@ AUDIT = "Audit/C29.lean"
 # import closure, and Audit/C29ExpLink.lean lists the theorems of BOTH modules (one Mathlib load; Audit/C29Exp.lean = C29Exp alone).
 EXTRA_STAGES = [("EmuVerif.Props.C29ExpLink", "Audit/C29ExpLink.lean")]
 TOL_H = 1e-12
-# calibrated on the clean tree (270 metamorphic pairs, seeds 0-2 + 3 extra streams): emu-sv pairs differ by <= 1.6e-7 (energy,
-# relative; occupations <= 2e-9) whatever krylov_tolerance is, emu-mps (precision 1e-10) by <= 4.4e-5, emu-mps vs expm <= 5e-5
-TOL_SV = 1e-5
+# calibrated on the clean tree (72 cases x 3 comparisons, float64 drives): emu-sv pairs differ by <= 2e-15, emu-sv vs expm <= 3e-8,
+# emu-mps pairs (precision 1e-10) by <= 5.6e-5, emu-mps vs expm <= 3e-5. (An earlier floor of 1.6e-7 for emu-sv was the float32
+# rounding of Python lists in compat.make_sequence_data, not the back-end.)
+TOL_SV = 1e-8
+TOL_SV_REF = 1e-6
 TOL_MPS = 2e-3
 
 
@@ -77,7 +79,8 @@ def ham_level(rep: Report, rng, count: int) -> None:
     for i in range(count):
         n = rng.randint(1, 8)
         P = dict(n=n, om=[complex(rng.uniform(0, 12), 0) for _ in range(n)], de=[complex(rng.uniform(-20, 20), 0) for _ in range(n)],
-                 U=[[0.0] * n for _ in range(n)], table={}, phis=[rng.choice([0.0, rng.uniform(-3, 3), rng.uniform(-3, 3)]) for _ in range(n)])
+                 U=[[0.0] * n for _ in range(n)], table={},
+                 phis=(c06.pi_phases(rng, n) if i % 3 == 0 else [rng.choice([0.0, rng.uniform(-3, 3), rng.uniform(-3, 3)]) for _ in range(n)]))
         for a in range(n):
             for b in range(a + 1, n):
                 P["U"][a][b] = P["U"][b][a] = rng.uniform(0, 30)
@@ -104,12 +107,20 @@ def ham_level(rep: Report, rng, count: int) -> None:
 
 
 # ------------------------------------------------------------------ end to end
-def gen_seq(rng, n, steps):
+def gen_seq(rng, n, steps, pi_mode=None):
     om = [[rng.uniform(2, 12) * rng.choice([1.0, 1.0, 0.0]) for _ in range(n)] for _ in range(steps)]
     de = [[rng.uniform(-12, 12) for _ in range(n)] for _ in range(steps)]
     ph = [[rng.choice([0.0, rng.uniform(-3, 3), rng.uniform(-3, 3)]) for _ in range(n)] for _ in range(steps)]   # exact zeros: real path
     if rng.random() < 0.5:                      # a global, time-dependent phase (what a Pulser global channel gives)
         ph = [[row[0]] * n for row in ph]
+    if pi_mode == "echo":                       # echo-type schedule: every phase is 0 or pi, alternating in time
+        first = rng.choice([0.0, math.pi])
+        ph = [[(first if t % 2 == 0 else math.pi - first)] * n for t in range(steps)]
+    elif pi_mode == "atoms":                    # per-atom multiples of pi, e.g. [pi, 0, pi], constant or changing between steps
+        from harness.props import c06
+        ph = [c06.pi_phases(rng, n) for _ in range(steps)]
+        if rng.random() < 0.5:
+            ph = [ph[0][:] for _ in range(steps)]
     U = [[0.0] * n for _ in range(n)]
     for a in range(n):
         for b in range(a + 1, n):
@@ -122,7 +133,9 @@ def run(backend, case, ph):
     np, torch, tio, compat = _imports()
     import pulser.backend as pb
     tt = [case["dt"] * k for k in range(case["steps"] + 1)]
-    data = compat.make_sequence_data(case["om"], case["de"], ph, case["U"], tt)
+    # float64 tensors: `torch.as_tensor` of a Python list is float32, which would round pi to 3.14159274 (sin = -8.7e-8)
+    f64 = lambda x: torch.tensor(x, dtype=torch.float64)
+    data = compat.make_sequence_data(f64(case["om"]), f64(case["de"]), f64(ph), f64(case["U"]), tt)
     ev = [1.0]
     obs = [pb.Occupation(evaluation_times=ev), pb.CorrelationMatrix(evaluation_times=ev), pb.Energy(evaluation_times=ev)]
     if backend == "sv":
@@ -163,7 +176,7 @@ def e2e(rep: Report, rng, count: int, with_mps: bool) -> None:
     for i in range(count):
         backend = "mps" if (with_mps and i % 3 == 2) else "sv"
         n = rng.randint(2, 5) if backend == "mps" else rng.randint(1, 6)
-        case = gen_seq(rng, n, rng.randint(2, 6))
+        case = gen_seq(rng, n, rng.randint(2, 6), pi_mode=[None, "echo", "atoms"][i % 3] if i % 2 == 0 or backend == "sv" else None)
         tol = TOL_SV if backend == "sv" else TOL_MPS
         th = rng.uniform(-3, 3)
         rep.case(key=("e2e", backend, i), nontrivial=True, trace=False)
@@ -189,8 +202,9 @@ def e2e(rep: Report, rng, count: int, with_mps: bool) -> None:
             got = run(backend, case, neg)
             d = dist(got, reference(case, neg))
             worst["ref"] = max(worst["ref"], d)
-            if d > 10 * tol:
-                rep.fail(f"emu-{backend}: run with negated phases differs from the expm reference by {d:.3e} > {10 * tol:.0e}",
+            rtol = TOL_SV_REF if backend == "sv" else 10 * tol
+            if d > rtol:
+                rep.fail(f"emu-{backend}: run with negated phases differs from the expm reference by {d:.3e} > {rtol:.0e}",
                          dict(kind="neg-ref", backend=backend, **case))
             demo = max(demo, dist(got, base))
         except Exception as e:
@@ -446,7 +460,7 @@ def replay(rep: Report, path: str) -> int:
                 e = dist(run(b, case, [[-c0] * n for _ in range(case["steps"])]), run(b, case, [[c0] * n for _ in range(case["steps"])]))
             else:
                 neg = [[-p for p in row] for row in case["ph"]]
-                e, tol = dist(run(b, case, neg), reference(case, neg)), 10 * tol
+                e, tol = dist(run(b, case, neg), reference(case, neg)), (TOL_SV_REF if b == "sv" else 10 * tol)
             print(f"replay: {k} emu-{b}: difference {e:.3e}", "FAILS" if e > tol else "holds now")
             bad += e > tol
         elif k == "ham":
